@@ -501,6 +501,7 @@ void logger_fn(void *arg) {
     c.thr_of_tid[sim::self()] = ta->idx;
     for (const sim::Op &op : c.plan->ops) {
         if (op.thr != ta->idx) continue;
+        if (c.plan->get("poison_errors", 0)) hx::poison_errors(c.plan->seed, sim::seq());
         switch (op.kind) {
             case OP_LOG: do_log(c, ta->idx, op); break;
             case OP_LOG_SIDE: do_log_side(c, ta->idx, op); break;
